@@ -833,6 +833,9 @@ func (e *Engine) finish() *Violation {
 	if relTablesPerNode(e.S.W) > 32 {
 		e.St.Probes["runs-with->32-tables-in-one-relation-node"]++
 	}
+	if e.P.Profile == "C13" || e.P.Profile == "C19" {
+		e.orderProbe()
+	}
 	if n := len(e.M.Alive); n > e.St.Probes["max:entities-alive-at-end"] {
 		e.St.Probes["max:entities-alive-at-end"] = n
 	}
@@ -958,4 +961,35 @@ func sortedEntities(m map[ecs.Entity]bool) []ecs.Entity {
 		return out[i].Generation() < out[j].Generation()
 	})
 	return out
+}
+
+// orderProbe (end of a C13 / C19 run): a fixed continuation that makes latent order visible. For every registered
+// relation type three new targets get a child each, one after the other, and the children are walked; which retired
+// table slot each new target received - decided by the order in which earlier resets and target deaths retired them -
+// shows in the iteration order, which goes into the run's digest. Nothing is compared with the model here.
+func (e *Engine) orderProbe() {
+	w := e.S.W
+	if w.IsLocked() {
+		return
+	}
+	defer func() { recover() }()
+	for t, reg := range e.S.Reg {
+		if !reg || !e.P.Types[t].IsRelation() || e.P.Types[t].IsPtr() {
+			continue
+		}
+		id := e.S.IDs[t]
+		var targets []ecs.Entity
+		for i := 0; i < 3; i++ {
+			targets = append(targets, w.NewEntity())
+		}
+		for _, tg := range targets {
+			ecs.NewBuilder(w, id).WithRelation(id).New(tg)
+		}
+		q := w.Query(ecs.All(id))
+		var seq []ecs.Entity
+		for q.Next() {
+			seq = append(seq, q.Entity())
+		}
+		e.logEnts("order-probe", seq)
+	}
 }
